@@ -193,9 +193,17 @@ func (g *GcsEmu) handleGcsCompose(ctx context.Context, baseUrl HttpBaseUrl, w ht
 		filename: parts[0],
 		conds:    conds,
 	}
+	if req.Destination == nil {
+		// the destination properties are optional
+		req.Destination = &storage.Object{}
+	}
 
 	srcs := make([]composeObj, len(req.SourceObjects))
 	for i, sObj := range req.SourceObjects {
+		if sObj == nil {
+			g.gapiError(w, http.StatusBadRequest, "bad compose request")
+			return
+		}
 		var generationMatch int64
 		if sObj.ObjectPreconditions != nil {
 			generationMatch = sObj.ObjectPreconditions.IfGenerationMatch
@@ -388,6 +396,10 @@ func (g *GcsEmu) handleGcsUpdateMetadataRequest(ctx context.Context, baseUrl Htt
 		err = json.NewDecoder(r.Body).Decode(&obj)
 		if err != nil {
 			return fmtErrorfCode(http.StatusBadRequest, "failed to parse request: %w", err)
+		}
+		if obj == nil {
+			// a body of "null" resets the pointer the patch is decoded over
+			return fmtErrorfCode(http.StatusBadRequest, "failed to parse request: not an object resource")
 		}
 		obj.Generation, obj.Md5Hash = generation, md5Hash
 
